@@ -258,6 +258,7 @@ func c04More(c *Ctx) {
 		c.Check("L3", fnName(fn)+"/own messages are queued without blocking (select with default, overflow handed to a goroutine)", nb == 1, fn.Pos(), nb, "")
 	}
 	c04Constructors(c)
+	c04InitialHeight(c)
 	// a stale lock must be released by a later polka, including one that completes in the current round
 	lockRules(c)
 	c.LockPairing([]string{"consensus", "consensus/types"}, map[string]string{})
@@ -351,4 +352,29 @@ func c04Constructors(c *Ctx) {
 		})
 	}
 	c.Check("U", "consensus/constructor self-calls inventoried", n >= 1, c.fnPos("consensus.NewTimeoutTicker"), n, "")
+}
+
+// c04InitialHeight: the first block of a chain whose genesis sets an initial height above 1.
+func c04InitialHeight(c *Ctx) {
+	fn := c.Fn("kai/state/cstate", "", "validateBlock")
+	if fn == nil {
+		return
+	}
+	h := `call:(*types.Block).Height(block)`
+	for _, in := range findInstrs(fn, IfOn(`^\(`+regexpQuote(h)+` != \(state\.LastBlockHeight \+ const:1\)\)$`)) {
+		guarded := hasCond(domConds(in), `^\(state\.LastBlockHeight > const:0\)=T$`)
+		// the If may itself be the second operand of `LastBlockHeight > 0 && …`
+		for _, p := range in.Block().Preds {
+			if iff, ok := p.Instrs[len(p.Instrs)-1].(*ssa.If); ok && pathOf(iff.Cond) == "(state.LastBlockHeight > const:0)" && p.Succs[0] == in.Block() && len(in.Block().Preds) == 1 {
+				guarded = true
+			}
+		}
+		if guarded {
+			c.OK("G", fnName(fn)+"/the follows-the-last-block height test applies after the first block", instrPos(in), 1, "")
+			continue
+		}
+		o := c.add("G", fnName(fn)+"/the first block of a chain is accepted at the genesis' initial height", Violated, instrPos(in), 1,
+			"block.Height() != state.LastBlockHeight+1 is tested unconditionally before the initial-height case: with a genesis InitialHeight above 1 the first block would have to be at height 1 and at InitialHeight at once, so no first block validates (advisory: only for a genesis file that sets initial_height > 1; the shipped genesis files do not)")
+		o.Advisory = true
+	}
 }
